@@ -4,12 +4,12 @@
    is a trap: under an environment that "keeps answering" the handler cannot hang. *)
 From Tramp Require Import Model.Base Model.Fee Model.Classify Model.Node Model.Provider Model.ProviderSys Model.Sys.
 From Tramp Require Import Proofs.FeeProofs Proofs.SysBasics Proofs.EntryProofs Proofs.SysEntry Proofs.SysShape Proofs.SysTheorems
-  Proofs.SysTimers Proofs.SysReach Proofs.SysCalls Proofs.SysNode Proofs.SysSafety.
+  Proofs.SysTimers Proofs.SysReach Proofs.SysPreimage Proofs.SysCalls Proofs.SysNode Proofs.SysSafety.
 From Coq Require Import ZifyBool ZifyNat ZifyN.
 
 Inductive CanResolve (c : cfg) : sys -> Prop :=
 | cr_done s : entry_ (pl s) = None -> CanResolve c s
-| cr_step s ev : ev_wf s ev -> ev <> EvCrash -> CanResolve c (fst (step c s ev)) -> CanResolve c s.
+| cr_step s ev : ev_wf true s ev -> ev <> EvCrash -> CanResolve c (fst (step c s ev)) -> CanResolve c s.
 
 (* ---------- the two basic moves ---------- *)
 (* the node processes a call: only that call's status (and the node) change *)
@@ -57,34 +57,34 @@ Qed.
 
 (* one processing step turns an unprocessed call (other than waitsendpay / pay) into an answered one *)
 Lemma cr_process_then c s k cl :
-  wreach c s -> nth_error (calls s) k = Some cl -> c_st cl = Unprocessed ->
+  wreach true c s -> nth_error (calls s) k = Some cl -> c_st cl = Unprocessed ->
   match c_rpc cl with QWaitPart _ | QPay _ _ _ _ _ => False | _ => True end ->
-  (forall s1 r, wreach c s1 -> pl s1 = pl s -> now s1 = now s -> nth_error (calls s1) k = Some {| c_rpc := c_rpc cl; c_st := Replied r |} -> CanResolve c s1) ->
+  (forall s1 r, wreach true c s1 -> pl s1 = pl s -> now s1 = now s -> nth_error (calls s1) k = Some {| c_rpc := c_rpc cl; c_st := Replied r |} -> CanResolve c s1) ->
   CanResolve c s.
 Proof.
   intros Hw Hk Hst Hq Hnext.
-  assert (Hwf : ev_wf s (EvProcess k NoFault)) by (left; reflexivity).
+  assert (Hwf : ev_wf true s (EvProcess k NoFault)) by (left; reflexivity).
   apply (cr_step c s (EvProcess k NoFault) Hwf ltac:(discriminate)).
   destruct (process_effect c s k cl Hk Hst) as (Hpl & Hnow & st' & Hcalls & Hst' & _).
   pose proof (node_exec_replies (nd s) (c_rpc cl)) as Hr.
   destruct (c_rpc cl) eqn:Eq; try contradiction; destruct Hr as (r & Hr); rewrite Hr in Hst'; subst st';
-    (apply (Hnext _ r (wr_step c s _ Hw Hwf) Hpl Hnow); rewrite Hcalls, (nth_set_status_same _ _ _ _ Hk), Eq; reflexivity).
+    (apply (Hnext _ r (wr_step true c s _ Hw Hwf) Hpl Hnow); rewrite Hcalls, (nth_set_status_same _ _ _ _ Hk), Eq; reflexivity).
 Qed.
 
 (* delivering the reply of an awaited call moves the awaiting lifecycle by its shape *)
 Lemma cr_deliver_then c s i x k cl y :
-  wreach c s -> nth_error (lcs (pl s)) i = Some x -> In k (awaits (l_pc x)) ->
+  wreach true c s -> nth_error (lcs (pl s)) i = Some x -> In k (awaits (l_pc x)) ->
   nth_error (calls s) k = Some cl -> c_st cl = Replied y ->
   (forall sh s1, lc_shape c (l_info x) (length (calls s)) (now s) (l_pc x) k y = Some sh ->
      s1 = fst (apply_adv (with_calls s (set_status k Delivered (calls s))) i
                  (adv_of c (l_info x) (length (calls s)) (height s) (now s) (entry_ (pl s)) true (next_att (pl s)) sh)) ->
-     wreach c s1 -> CanResolve c s1) ->
+     wreach true c s1 -> CanResolve c s1) ->
   CanResolve c s.
 Proof.
-  intros Hw Hx Hin Hk Hst Hnext. destruct (wreach_inv c s Hw) as (_ & HC & _ & _).
+  intros Hw Hx Hin Hk Hst Hnext. destruct (wreach_inv true c s Hw) as (_ & HC & _ & _).
   destruct (deliver_effect c s i x k cl y true HC Hx Hin Hk Hst) as (sh & Hsh & Hstep).
   apply (cr_step c s (EvDeliver k true) I ltac:(discriminate)).
-  apply (Hnext sh _ Hsh); [rewrite Hstep; reflexivity|]. exact (wr_step c s (EvDeliver k true) Hw I).
+  apply (Hnext sh _ Hsh); [rewrite Hstep; reflexivity|]. exact (wr_step true c s (EvDeliver k true) Hw I).
 Qed.
 
 (* the state after installing a lifecycle step *)
@@ -99,11 +99,11 @@ Qed.
 
 (* ---------- sleeping in the select!: time passes, the deadline fires ---------- *)
 Lemma cr_select c s i x d :
-  wreach c s -> nth_error (lcs (pl s)) i = Some x -> l_pc x = PSelect d -> CanResolve c s.
+  wreach true c s -> nth_error (lcs (pl s)) i = Some x -> l_pc x = PSelect d -> CanResolve c s.
 Proof.
   intros Hw Hx Hp. destruct (entry_ (pl s)) as [en|] eqn:He; [|apply cr_done; exact He].
   apply (cr_step c s (EvTick (d - now s)) I ltac:(discriminate)). apply cr_done.
-  destruct (wreach_inv c s Hw) as (Hr & _). destruct (reachable_inv c s Hr) as (_ & _ & HT).
+  destruct (wreach_inv true c s Hw) as (Hr & _). destruct (reachable_inv c s Hr) as (_ & _ & HT).
   destruct (HT i x d Hx Hp) as (Hlt & _).
   exact (proj1 (proj2 (tick_at_deadline c s (d - now s) en i x d He Hx Hp ltac:(lia)))).
 Qed.
@@ -160,7 +160,7 @@ Proof.
     destruct (nth_error (calls s) k) as [cl0|]; [|discriminate]. inversion Hk; subst cl. cbn in Hr. destruct (c_st cl0); discriminate.
 Qed.
 
-Lemma wreach_Run c s : wreach c s -> InvRun s.
+Lemma wreach_Run c s : wreach true c s -> InvRun s.
 Proof. induction 1 as [n t0 h0 a0 _|s ev _ IH _]; [intros [|k] cl Hk; discriminate|apply step_InvRun; exact IH]. Qed.
 
 Lemma resolve_entry_none e r p qs cn na : a_entry (do_resolve e r p qs [] cn na) = None.
@@ -171,22 +171,22 @@ Proof. induction l as [|a r IH]; cbn; [lia|]. destruct (f a); cbn; lia. Qed.
 
 (* ---------- wait_payment: every awaited part is driven to its fate ---------- *)
 (* [Hmark]: what follows the RESTART path's wait when everything has failed (the pay path needs no successor) *)
-  Lemma cr_wparts c kk : (forall a g t, kk = AfterRestart a g t -> forall s i x k, wreach c s -> nth_error (lcs (pl s)) i = Some x -> l_pc x = PMarkF1 k a g t -> CanResolve c s) ->
+  Lemma cr_wparts c kk : (forall a g t, kk = AfterRestart a g t -> forall s i x k, wreach true c s -> nth_error (lcs (pl s)) i = Some x -> l_pc x = PMarkF1 k a g t -> CanResolve c s) ->
     forall n s i x aw,
-    length aw = n -> wreach c s -> nth_error (lcs (pl s)) i = Some x -> l_pc x = PWait kk (WParts aw) -> CanResolve c s.
+    length aw = n -> wreach true c s -> nth_error (lcs (pl s)) i = Some x -> l_pc x = PWait kk (WParts aw) -> CanResolve c s.
   Proof.
     intros Hmark. induction n as [n IH] using lt_wf_ind. intros s i x aw Hlen Hw Hx Hp.
     destruct (entry_ (pl s)) as [en|] eqn:He; [|apply cr_done; exact He].
-    destruct aw as [|[pid0 cid0] aw']; [exfalso; exact (wreach_W c s Hw i x kk Hx Hp)|].
-    destruct (wreach_inv c s Hw) as (_ & HC & _ & HN).
+    destruct aw as [|[pid0 cid0] aw']; [exfalso; exact (wreach_W true c s Hw i x kk Hx Hp)|].
+    destruct (wreach_inv true c s Hw) as (_ & HC & _ & HN).
     pose proof (ic_typed c s HC i x Hx) as Hty. rewrite Hp in Hty. cbn [pc_calls_ok] in Hty.
     destruct (Hty pid0 cid0 (or_introl eq_refl)) as (st & Hk & Hlive).
     (* the reply has arrived: deliver it *)
-    assert (Repl : forall s2 y, wreach c s2 -> pl s2 = pl s -> nth_error (calls s2) cid0 = Some {| c_rpc := QWaitPart pid0; c_st := Replied y |} -> CanResolve c s2).
+    assert (Repl : forall s2 y, wreach true c s2 -> pl s2 = pl s -> nth_error (calls s2) cid0 = Some {| c_rpc := QWaitPart pid0; c_st := Replied y |} -> CanResolve c s2).
     { intros s2 y Hw2 Hpl Hk2.
       assert (Hx2 : nth_error (lcs (pl s2)) i = Some x) by (rewrite Hpl; exact Hx).
-      destruct (wreach_inv c s2 Hw2) as (_ & _ & _ & HN2).
-      pose proof (ni_r s2 HN2 cid0 _ y Hk2 eq_refl) as Hry. cbn in Hry.
+      destruct (wreach_inv true c s2 Hw2) as (_ & _ & _ & HN2).
+      pose proof (ni_r true s2 HN2 cid0 _ y Hk2 eq_refl) as Hry. cbn in Hry.
       apply (cr_deliver_then c s2 i x cid0 _ y Hw2 Hx2 ltac:(rewrite Hp; left; reflexivity) Hk2 eq_refl).
       intros sh s3 Hsh Hs3 Hw3. rewrite Hp in Hsh. unfold lc_shape in Hsh. cbn [wait_deliver existsb snd] in Hsh. rewrite Nat.eqb_refl in Hsh. cbn [orb negb] in Hsh.
       destruct (after_adv (with_calls s2 (set_status cid0 Delivered (calls s2))) i
@@ -202,22 +202,22 @@ Proof. induction l as [|a r IH]; cbn; [lia|]. destruct (f a); cbn; lia. Qed.
           apply (IH (length (r0 :: rest)) ltac:(rewrite <- Ef, <- Hlen; cbn [filter snd]; rewrite Nat.eqb_refl; cbn [negb length]; pose proof (filter_length_le (fun z => negb (Nat.eqb (snd z) cid0)) aw'); lia)
                     s3 i _ (r0 :: rest) eq_refl Hw3 Hl3). reflexivity. }
     (* the call is unprocessed and the part has resolved: the node answers *)
-    assert (Proc : forall s1, wreach c s1 -> pl s1 = pl s -> nth_error (calls s1) cid0 = Some {| c_rpc := QWaitPart pid0; c_st := Unprocessed |} ->
+    assert (Proc : forall s1, wreach true c s1 -> pl s1 = pl s -> nth_error (calls s1) cid0 = Some {| c_rpc := QWaitPart pid0; c_st := Unprocessed |} ->
                    nth_error (parts (nd s1)) pid0 <> Some PPend -> CanResolve c s1).
     { intros s1 Hw1 Hpl Hk1 Hnp.
-      assert (Hwf : ev_wf s1 (EvProcess cid0 NoFault)) by (left; reflexivity).
+      assert (Hwf : ev_wf true s1 (EvProcess cid0 NoFault)) by (left; reflexivity).
       apply (cr_step c s1 (EvProcess cid0 NoFault) Hwf ltac:(discriminate)).
       destruct (process_effect c s1 cid0 _ Hk1 eq_refl) as (Hpl1 & _ & st' & Hcalls & Hst' & _). cbn [c_rpc] in Hst'.
       rewrite node_exec_read_nofault in Hst' by reflexivity. cbn [snd] in Hst'.
       assert (exists r, st' = Replied r) by (destruct (nth_error (parts (nd s1)) pid0) as [[| |]|]; [congruence|eauto|eauto|eauto]).
       destruct H as (r & ->).
-      apply (Repl _ r (wr_step c s1 _ Hw1 Hwf)); [congruence|]. rewrite Hcalls. exact (nth_set_status_same _ _ _ _ Hk1). }
+      apply (Repl _ r (wr_step true c s1 _ Hw1 Hwf)); [congruence|]. rewrite Hcalls. exact (nth_set_status_same _ _ _ _ Hk1). }
     destruct st as [| |y| | |].
     - (* unprocessed *)
       destruct (nth_error (parts (nd s)) pid0) as [[| |]|] eqn:Ep; try (apply (Proc s Hw eq_refl Hk); congruence).
       (* the part is still pending: it resolves (here: fails) *)
       apply (cr_step c s (EvPart pid0 PFailed) I ltac:(discriminate)).
-      apply (Proc _ (wr_step c s (EvPart pid0 PFailed) Hw I)); cbn [step]; rewrite Ep; cbn [fst with_nd pl calls nd set_parts parts]; auto.
+      apply (Proc _ (wr_step true c s (EvPart pid0 PFailed) Hw I)); cbn [step]; rewrite Ep; cbn [fst with_nd pl calls nd set_parts parts]; auto.
       rewrite nth_error_upd_same by (apply nth_error_Some; congruence). discriminate.
     - exfalso. pose proof (wreach_Run c s Hw cid0 _ Hk eq_refl) as X. discriminate.
     - exact (Repl s y Hw eq_refl Hk).
@@ -228,9 +228,9 @@ Proof. induction l as [|a r IH]; cbn; [lia|]. destruct (f a); cbn; lia. Qed.
 
 (* a lifecycle awaiting one call (not waitsendpay, not pay): the node answers, then the reply is there *)
 Lemma cr_single c s k q :
-  wreach c s -> has_call (calls s) k q ->
+  wreach true c s -> has_call (calls s) k q ->
   match q with QWaitPart _ | QPay _ _ _ _ _ => False | _ => True end ->
-  (forall s2 y, wreach c s2 -> pl s2 = pl s -> now s2 = now s -> nth_error (calls s2) k = Some {| c_rpc := q; c_st := Replied y |} -> CanResolve c s2) ->
+  (forall s2 y, wreach true c s2 -> pl s2 = pl s -> now s2 = now s -> nth_error (calls s2) k = Some {| c_rpc := q; c_st := Replied y |} -> CanResolve c s2) ->
   CanResolve c s.
 Proof.
   intros Hw (st & Hk & Hlive) Hq Hnext. destruct st as [| |y| | |].
@@ -242,15 +242,15 @@ Proof.
   - exfalso. destruct Hlive as [L|[L|(? & L)]]; discriminate.
 Qed.
 
-  Lemma cr_wlistd c kk : (forall a g t, kk = AfterRestart a g t -> forall s i x k, wreach c s -> nth_error (lcs (pl s)) i = Some x -> l_pc x = PMarkF1 k a g t -> CanResolve c s) -> forall s i x k ps,
-    wreach c s -> nth_error (lcs (pl s)) i = Some x -> l_pc x = PWait kk (WListD k ps) -> CanResolve c s.
+  Lemma cr_wlistd c kk : (forall a g t, kk = AfterRestart a g t -> forall s i x k, wreach true c s -> nth_error (lcs (pl s)) i = Some x -> l_pc x = PMarkF1 k a g t -> CanResolve c s) -> forall s i x k ps,
+    wreach true c s -> nth_error (lcs (pl s)) i = Some x -> l_pc x = PWait kk (WListD k ps) -> CanResolve c s.
   Proof.
-    intros Hmark s i x k ps Hw Hx Hp. destruct (wreach_inv c s Hw) as (_ & HC & _ & _).
+    intros Hmark s i x k ps Hw Hx Hp. destruct (wreach_inv true c s Hw) as (_ & HC & _ & _).
     pose proof (ic_typed c s HC i x Hx) as Hty. rewrite Hp in Hty. cbn [pc_calls_ok] in Hty.
     apply (cr_single c s k QListDone Hw Hty I). intros s2 y Hw2 Hpl _ Hk2.
     assert (Hx2 : nth_error (lcs (pl s2)) i = Some x) by (rewrite Hpl; exact Hx).
-    destruct (wreach_inv c s2 Hw2) as (_ & _ & _ & HN2).
-    pose proof (ni_r s2 HN2 k _ y Hk2 eq_refl) as Hry. cbn in Hry. destruct Hry as (l & ->).
+    destruct (wreach_inv true c s2 Hw2) as (_ & _ & _ & HN2).
+    pose proof (ni_r true s2 HN2 k _ y Hk2 eq_refl) as Hry. cbn in Hry. destruct Hry as (l & ->).
     apply (cr_deliver_then c s2 i x k _ _ Hw2 Hx2 ltac:(rewrite Hp; left; reflexivity) Hk2 eq_refl).
     intros sh s3 Hsh Hs3 Hw3. rewrite Hp in Hsh. unfold lc_shape in Hsh. cbn [wait_deliver] in Hsh. rewrite Nat.eqb_refl in Hsh. cbn [negb] in Hsh.
     destruct (after_adv (with_calls s2 (set_status k Delivered (calls s2))) i
@@ -266,15 +266,15 @@ Qed.
     - inversion Hsh; subst sh. apply cr_done. rewrite He3. unfold shape_succeed, adv_of. apply resolve_entry_none.
   Qed.
 
-  Lemma cr_wlistp c kk : (forall a g t, kk = AfterRestart a g t -> forall s i x k, wreach c s -> nth_error (lcs (pl s)) i = Some x -> l_pc x = PMarkF1 k a g t -> CanResolve c s) -> forall s i x k,
-    wreach c s -> nth_error (lcs (pl s)) i = Some x -> l_pc x = PWait kk (WListP k) -> CanResolve c s.
+  Lemma cr_wlistp c kk : (forall a g t, kk = AfterRestart a g t -> forall s i x k, wreach true c s -> nth_error (lcs (pl s)) i = Some x -> l_pc x = PMarkF1 k a g t -> CanResolve c s) -> forall s i x k,
+    wreach true c s -> nth_error (lcs (pl s)) i = Some x -> l_pc x = PWait kk (WListP k) -> CanResolve c s.
   Proof.
-    intros Hmark s i x k Hw Hx Hp. destruct (wreach_inv c s Hw) as (_ & HC & _ & _).
+    intros Hmark s i x k Hw Hx Hp. destruct (wreach_inv true c s Hw) as (_ & HC & _ & _).
     pose proof (ic_typed c s HC i x Hx) as Hty. rewrite Hp in Hty. cbn [pc_calls_ok] in Hty.
     apply (cr_single c s k QListPend Hw Hty I). intros s2 y Hw2 Hpl _ Hk2.
     assert (Hx2 : nth_error (lcs (pl s2)) i = Some x) by (rewrite Hpl; exact Hx).
-    destruct (wreach_inv c s2 Hw2) as (_ & _ & _ & HN2).
-    pose proof (ni_r s2 HN2 k _ y Hk2 eq_refl) as Hry. cbn in Hry. destruct Hry as (l & ->).
+    destruct (wreach_inv true c s2 Hw2) as (_ & _ & _ & HN2).
+    pose proof (ni_r true s2 HN2 k _ y Hk2 eq_refl) as Hry. cbn in Hry. destruct Hry as (l & ->).
     apply (cr_deliver_then c s2 i x k _ _ Hw2 Hx2 ltac:(rewrite Hp; left; reflexivity) Hk2 eq_refl).
     intros sh s3 Hsh Hs3 Hw3. rewrite Hp in Hsh. unfold lc_shape in Hsh. cbn [wait_deliver] in Hsh. rewrite Nat.eqb_refl in Hsh. cbn [negb] in Hsh.
     destruct (after_adv (with_calls s2 (set_status k Delivered (calls s2))) i
@@ -284,8 +284,8 @@ Qed.
     eapply (cr_wlistd c kk Hmark); [exact Hw3|exact Hl3|reflexivity].
   Qed.
 
-  Lemma cr_wait c kk : (forall a g t, kk = AfterRestart a g t -> forall s i x k, wreach c s -> nth_error (lcs (pl s)) i = Some x -> l_pc x = PMarkF1 k a g t -> CanResolve c s) -> forall s i x w,
-    wreach c s -> nth_error (lcs (pl s)) i = Some x -> l_pc x = PWait kk w -> CanResolve c s.
+  Lemma cr_wait c kk : (forall a g t, kk = AfterRestart a g t -> forall s i x k, wreach true c s -> nth_error (lcs (pl s)) i = Some x -> l_pc x = PMarkF1 k a g t -> CanResolve c s) -> forall s i x w,
+    wreach true c s -> nth_error (lcs (pl s)) i = Some x -> l_pc x = PWait kk w -> CanResolve c s.
   Proof.
     intros Hmark s i x w Hw Hx Hp. destruct w as [k|k ps|aw].
     - eapply (cr_wlistp c kk Hmark); eauto.
@@ -314,13 +314,13 @@ Lemma pend_ids_hd ps b pid rest : pend_ids b ps = pid :: rest -> exists j, pid =
 Proof. intros H. apply (pend_ids_spec ps b pid). rewrite H. left; reflexivity. Qed.
 
 Lemma cr_pay c s i x k a g :
-  wreach c s -> nth_error (lcs (pl s)) i = Some x -> l_pc x = PPay k a g -> CanResolve c s.
+  wreach true c s -> nth_error (lcs (pl s)) i = Some x -> l_pc x = PPay k a g -> CanResolve c s.
 Proof.
-  intros Hw Hx Hp. destruct (wreach_inv c s Hw) as (_ & HC & _ & _).
+  intros Hw Hx Hp. destruct (wreach_inv true c s Hw) as (_ & HC & _ & _).
   pose proof (ic_typed c s HC i x Hx) as Hty. rewrite Hp in Hty. cbn [pc_calls_ok] in Hty. destruct Hty as (am & mf & md & (st & Hk & Hlive)).
   set (q := QPay (li_blob (l_info x)) am mf md (retry_for c)) in *.
   (* the answer to the pay request is there: deliver it *)
-  assert (Repl : forall s2 y, wreach c s2 -> pl s2 = pl s -> nth_error (calls s2) k = Some {| c_rpc := q; c_st := Replied y |} -> CanResolve c s2).
+  assert (Repl : forall s2 y, wreach true c s2 -> pl s2 = pl s -> nth_error (calls s2) k = Some {| c_rpc := q; c_st := Replied y |} -> CanResolve c s2).
   { intros s2 y Hw2 Hpl Hk2.
     assert (Hx2 : nth_error (lcs (pl s2)) i = Some x) by (rewrite Hpl; exact Hx).
     apply (cr_deliver_then c s2 i x k _ _ Hw2 Hx2 ltac:(rewrite Hp; left; reflexivity) Hk2 eq_refl).
@@ -333,12 +333,12 @@ Proof.
     - apply cr_done. rewrite He3. unfold shape_pay_failed, adv_of. apply resolve_entry_none.
     - cbn [adv_of a_pc] in Hl3. eapply (cr_wait c (AfterPay a g)); [intros ? ? ? E; discriminate E|exact Hw3|exact Hl3|reflexivity]. }
   (* the pay command runs: its pending parts resolve, then it ends *)
-  assert (Run : forall n s1, length (pend_ids 0 (parts (nd s1))) = n -> wreach c s1 -> pl s1 = pl s ->
+  assert (Run : forall n s1, length (pend_ids 0 (parts (nd s1))) = n -> wreach true c s1 -> pl s1 = pl s ->
                   nth_error (calls s1) k = Some {| c_rpc := q; c_st := Running |} -> CanResolve c s1).
   { induction n as [n IH] using lt_wf_ind. intros s1 Hn Hw1 Hpl Hk1.
-    assert (Fin : forall o, ev_wf s1 (EvPayFinish k o) -> CanResolve c s1).
+    assert (Fin : forall o, ev_wf true s1 (EvPayFinish k o) -> CanResolve c s1).
     { intros o Hwf. apply (cr_step c s1 (EvPayFinish k o) Hwf ltac:(discriminate)).
-      apply (Repl _ (YPay o) (wr_step c s1 _ Hw1 Hwf)); cbn [step]; rewrite Hk1; unfold q; cbn [fst pl calls]; [exact Hpl|].
+      apply (Repl _ (YPay o) (wr_step true c s1 _ Hw1 Hwf)); cbn [step]; rewrite Hk1; unfold q; cbn [fst pl calls]; [exact Hpl|].
       exact (nth_set_status_same _ _ _ _ Hk1). }
     destruct (done_pres (parts (nd s1))) as [|p dl] eqn:Ed.
     - destruct (pend_ids 0 (parts (nd s1))) as [|pid rest] eqn:Ep.
@@ -349,16 +349,16 @@ Proof.
         apply (IH (length (pend_ids 0 (parts (nd (fst (step c s1 (EvPart j PFailed)))))))).
         * rewrite Es. cbn [with_nd nd set_parts parts]. rewrite <- Hn, <- Ep. apply npend_upd. exact Hj.
         * reflexivity.
-        * exact (wr_step c s1 (EvPart j PFailed) Hw1 I).
+        * exact (wr_step true c s1 (EvPart j PFailed) Hw1 I).
         * rewrite Es. exact Hpl.
         * rewrite Es. exact Hk1.
     - apply (Fin (PayComplete p)). cbn. apply done_pres_spec. rewrite Ed. left; reflexivity. }
   destruct st as [| |y| | |].
   - (* unprocessed: the node starts the pay command *)
-    assert (Hwf : ev_wf s (EvProcess k NoFault)) by (left; reflexivity).
+    assert (Hwf : ev_wf true s (EvProcess k NoFault)) by (left; reflexivity).
     apply (cr_step c s (EvProcess k NoFault) Hwf ltac:(discriminate)).
     destruct (process_effect c s k _ Hk eq_refl) as (Hpl & _ & st' & Hcalls & Hst' & _). cbn [c_rpc] in Hst'. unfold q in Hst'. cbn in Hst'. subst st'.
-    apply (Run _ _ eq_refl (wr_step c s _ Hw Hwf) Hpl). rewrite Hcalls. exact (nth_set_status_same _ _ _ _ Hk).
+    apply (Run _ _ eq_refl (wr_step true c s _ Hw Hwf) Hpl). rewrite Hcalls. exact (nth_set_status_same _ _ _ _ Hk).
   - exact (Run _ s eq_refl Hw eq_refl Hk).
   - exact (Repl s y Hw eq_refl Hk).
   - exfalso. destruct Hlive as [L|[L|(? & L)]]; discriminate.
@@ -368,9 +368,9 @@ Qed.
 
 (* ---------- the write-ahead steps before the pay request ---------- *)
 Lemma cr_add2 c s i x k a g am mf md :
-  wreach c s -> nth_error (lcs (pl s)) i = Some x -> l_pc x = PAdd2 k a g am mf md -> CanResolve c s.
+  wreach true c s -> nth_error (lcs (pl s)) i = Some x -> l_pc x = PAdd2 k a g am mf md -> CanResolve c s.
 Proof.
-  intros Hw Hx Hp. destruct (wreach_inv c s Hw) as (_ & HC & _ & _).
+  intros Hw Hx Hp. destruct (wreach_inv true c s Hw) as (_ & HC & _ & _).
   pose proof (ic_typed c s HC i x Hx) as Hty. rewrite Hp in Hty. cbn [pc_calls_ok] in Hty.
   apply (cr_single c s k _ Hw Hty I). intros s2 y Hw2 Hpl _ Hk2.
   assert (Hx2 : nth_error (lcs (pl s2)) i = Some x) by (rewrite Hpl; exact Hx).
@@ -384,9 +384,9 @@ Proof.
 Qed.
 
 Lemma cr_add1 c s i x k a am mf md :
-  wreach c s -> nth_error (lcs (pl s)) i = Some x -> l_pc x = PAdd1 k a am mf md -> CanResolve c s.
+  wreach true c s -> nth_error (lcs (pl s)) i = Some x -> l_pc x = PAdd1 k a am mf md -> CanResolve c s.
 Proof.
-  intros Hw Hx Hp. destruct (wreach_inv c s Hw) as (_ & HC & _ & _).
+  intros Hw Hx Hp. destruct (wreach_inv true c s Hw) as (_ & HC & _ & _).
   pose proof (ic_typed c s HC i x Hx) as Hty. rewrite Hp in Hty. cbn [pc_calls_ok] in Hty. destruct Hty as (t & Hty).
   apply (cr_single c s k _ Hw Hty I). intros s2 y Hw2 Hpl _ Hk2.
   assert (Hx2 : nth_error (lcs (pl s2)) i = Some x) by (rewrite Hpl; exact Hx).
@@ -410,7 +410,7 @@ Proof.
 Qed.
 
 Lemma cr_after_select c s3 i y e3 a :
-  wreach c s3 -> nth_error (lcs (pl s3)) i = Some (set_pc y (a_pc a)) -> entry_ (pl s3) = a_entry a ->
+  wreach true c s3 -> nth_error (lcs (pl s3)) i = Some (set_pc y (a_pc a)) -> entry_ (pl s3) = a_entry a ->
   (a_entry a = None \/ (exists d', a_pc a = PSelect d') \/ (exists k a0 am mf md, a_pc a = PAdd1 k a0 am mf md)) ->
   e3 = a_entry a -> CanResolve c s3.
 Proof.
@@ -422,9 +422,9 @@ Qed.
 
 (* ---------- the restart path: mark_failed ---------- *)
 Lemma cr_markf2 c s i x k a g t :
-  wreach c s -> nth_error (lcs (pl s)) i = Some x -> l_pc x = PMarkF2 k a g t -> CanResolve c s.
+  wreach true c s -> nth_error (lcs (pl s)) i = Some x -> l_pc x = PMarkF2 k a g t -> CanResolve c s.
 Proof.
-  intros Hw Hx Hp. destruct (wreach_inv c s Hw) as (_ & HC & _ & _).
+  intros Hw Hx Hp. destruct (wreach_inv true c s Hw) as (_ & HC & _ & _).
   pose proof (ic_typed c s HC i x Hx) as Hty. rewrite Hp in Hty. cbn [pc_calls_ok] in Hty.
   apply (cr_single c s k _ Hw Hty I). intros s2 y Hw2 Hpl _ Hk2.
   assert (Hx2 : nth_error (lcs (pl s2)) i = Some x) by (rewrite Hpl; exact Hx).
@@ -438,9 +438,9 @@ Proof.
 Qed.
 
 Lemma cr_markf1 c s i x k a g t :
-  wreach c s -> nth_error (lcs (pl s)) i = Some x -> l_pc x = PMarkF1 k a g t -> CanResolve c s.
+  wreach true c s -> nth_error (lcs (pl s)) i = Some x -> l_pc x = PMarkF1 k a g t -> CanResolve c s.
 Proof.
-  intros Hw Hx Hp. destruct (wreach_inv c s Hw) as (_ & HC & _ & _).
+  intros Hw Hx Hp. destruct (wreach_inv true c s Hw) as (_ & HC & _ & _).
   pose proof (ic_typed c s HC i x Hx) as Hty. rewrite Hp in Hty. cbn [pc_calls_ok] in Hty.
   apply (cr_single c s k _ Hw Hty I). intros s2 y Hw2 Hpl _ Hk2.
   assert (Hx2 : nth_error (lcs (pl s2)) i = Some x) by (rewrite Hpl; exact Hx).
@@ -455,9 +455,9 @@ Qed.
 
 (* ---------- the start of a lifecycle ---------- *)
 Lemma cr_fetch c s i x k :
-  wreach c s -> nth_error (lcs (pl s)) i = Some x -> l_pc x = PFetch k -> CanResolve c s.
+  wreach true c s -> nth_error (lcs (pl s)) i = Some x -> l_pc x = PFetch k -> CanResolve c s.
 Proof.
-  intros Hw Hx Hp. destruct (wreach_inv c s Hw) as (_ & HC & _ & _).
+  intros Hw Hx Hp. destruct (wreach_inv true c s Hw) as (_ & HC & _ & _).
   pose proof (ic_typed c s HC i x Hx) as Hty. rewrite Hp in Hty. cbn [pc_calls_ok] in Hty.
   apply (cr_single c s k _ Hw Hty I). intros s2 y Hw2 Hpl _ Hk2.
   assert (Hx2 : nth_error (lcs (pl s2)) i = Some x) by (rewrite Hpl; exact Hx).
@@ -476,12 +476,12 @@ Proof.
 Qed.
 
 (* ---------- no reachable state is a trap ---------- *)
-Theorem can_always_resolve c s : wreach c s -> CanResolve c s.
+Theorem can_always_resolve c s : wreach true c s -> CanResolve c s.
 Proof.
   intros Hw. destruct (entry_ (pl s)) as [e|] eqn:He; [|apply cr_done; exact He].
-  pose proof (wreach_U c s Hw) as HU. unfold InvU in HU. rewrite He in HU.
+  pose proof (wreach_U true c s Hw) as HU. unfold InvU in HU. rewrite He in HU.
   destruct (n_att_exists (lcs (pl s)) ltac:(lia)) as (i & x & Hx & Ax).
-  destruct (wreach_no_panic c s Hw) as (Hnp & _).
+  destruct (wreach_no_panic true c s eq_refl Hw) as (Hnp & _).
   destruct (l_pc x) as [k1|kk w|k1 a g t|k1 a g t|d|k1 a am mf md|k1 a g am mf md|k1 a g|k1 a pr|k1 a|k1 a g|k1 a g| |] eqn:Hp; try discriminate.
   - eapply cr_fetch; eauto.
   - destruct kk as [a g t|a g].
@@ -498,8 +498,8 @@ Qed.
 
 (* ---------- ... and along that continuation every HTLC that was held IS answered ---------- *)
 Inductive Answered (c : cfg) (u : N) : sys -> Prop :=
-| an_now s ev r : ev_wf s ev -> ev <> EvCrash -> In (OResp u r) (snd (step c s ev)) -> Answered c u s
-| an_later s ev : ev_wf s ev -> ev <> EvCrash -> Answered c u (fst (step c s ev)) -> Answered c u s.
+| an_now s ev r : ev_wf true s ev -> ev <> EvCrash -> In (OResp u r) (snd (step c s ev)) -> Answered c u s
+| an_later s ev : ev_wf true s ev -> ev <> EvCrash -> Answered c u (fst (step c s ev)) -> Answered c u s.
 
 Lemma fire_timers_keeps_or_answers : forall l e t l' e' o' en h,
   fire_timers l e t = (l', e', o') -> e = Some en -> In h (listeners en) ->
@@ -561,11 +561,83 @@ Proof.
 Qed.
 
 Theorem held_htlc_is_answered c s en h :
-  wreach c s -> entry_ (pl s) = Some en -> In h (listeners en) -> Answered c (hid h) s.
+  wreach true c s -> entry_ (pl s) = Some en -> In h (listeners en) -> Answered c (hid h) s.
 Proof.
   intros Hw. pose proof (can_always_resolve c s Hw) as Hcr. clear Hw. revert en.
   induction Hcr as [s Hn|s ev Hwf Hnc _ IH]; intros en He Hh; [congruence|].
   destruct (step_keeps_or_answers c s ev en h Hnc He Hh) as [(en' & He' & Hh')|(r & Hr)].
   - apply (an_later c (hid h) s ev Hwf Hnc). exact (IH en' He' Hh').
   - exact (an_now c (hid h) s ev r Hwf Hnc Hr).
+Qed.
+
+(* ---------- C02, last clause: once the outgoing payment has completed, the held HTLCs are SETTLED ---------- *)
+Lemma wreach_F c s : wreach true c s -> InvF s.
+Proof.
+  induction 1 as [n t0 h0 a0 _|s ev Hw IH _]; [intros e He; discriminate|].
+  destruct (wreach_inv true c s Hw) as (Hr & _). destruct (reachable_inv c s Hr) as (HU & HE & _). apply step_InvF; assumption.
+Qed.
+
+Lemma lc_shape_resolve_kind c li base tnow p cid y r p' new cn :
+  lc_shape c li base tnow p cid y = Some (LResolve r p' new cn) -> (exists m, r = Fail m) \/ (exists pr, r = Resolve pr).
+Proof.
+  destruct p as [k1|kk w|k1 a g t|k1 a g t|d|k1 a am mf md|k1 a g am mf md|k1 a g|k1 a pr|k1 a|k1 a g|k1 a g| |];
+    unfold lc_shape; try discriminate; try (destruct (negb (Nat.eqb k1 cid)); [discriminate|]).
+  - destruct y as [[[[| | |] ?]|]| | | | | | | |]; intros H; inversion H; subst; unfold r_node_fail; eauto.
+  - destruct (wait_deliver base w cid y) as [[w' nw|[pr| |] cn0]|]; try discriminate.
+    + intros H; inversion H; subst. eauto.
+    + destruct kk; intros H; inversion H; subst. unfold r_tramp_fail. eauto.
+    + destruct kk; intros H; inversion H; subst. unfold r_tramp_fail. eauto.
+  - destruct y; intros H; inversion H; subst; unfold r_node_fail; eauto.
+  - destruct y; intros H; inversion H; subst; unfold r_node_fail; eauto.
+  - destruct y; intros H; inversion H; subst; unfold r_node_fail; eauto.
+  - destruct y; intros H; inversion H; subst; unfold r_node_fail; eauto.
+  - destruct (pay_reply y); intros H; inversion H; subst; unfold r_tramp_fail; eauto.
+  - destruct y; discriminate.
+  - discriminate.
+  - destruct y; discriminate.
+  - discriminate.
+Qed.
+
+(* the plugin answers a held trampoline HTLC with a failure or a settle, never with "continue" *)
+Lemma resp_kind c s ev u r :
+  InvF s -> In (OResp u r) (snd (step c s ev)) -> (exists m, r = Fail m) \/ (exists p, r = Resolve p).
+Proof.
+  intros HF Hin. destruct ev; cbn [step] in Hin; try (destruct Hin; fail).
+  - destruct (entry_ (pl s)); [destruct Hin|destruct Hin as [Hin|[]]; discriminate].
+  - destruct (find_select 0 (lcs (pl s))) as [[[i d] li]|]; [|destruct Hin].
+    apply apply_adv_resp_in in Hin. left. exact (select_poll_resp _ _ _ _ _ _ _ _ _ _ _ HF Hin).
+  - destruct (nth_error (calls s) cid) as [cl|]; [|destruct Hin]. destruct (c_st cl); try (destruct Hin; fail).
+    destruct (node_exec (nd s) (c_rpc cl) f). destruct Hin.
+  - destruct (nth_error (calls s) cid) as [cl|]; [|destruct Hin]. destruct (c_st cl); try (destruct Hin; fail).
+    destruct (find_owner c 0 (lcs (pl s)) cid y sel (entry_ (pl s)) (length (calls s)) (height s) (now s) (next_att (pl s))) as [[i a]|] eqn:Hf; [|destruct Hin].
+    destruct (find_owner_spec _ _ _ _ _ _ _ _ _ _ _ _ _ Hf) as (x & Hx & _ & Hd).
+    apply apply_adv_resp_in in Hin. rewrite lc_deliver_shape in Hd.
+    destruct (lc_shape c (l_info x) (length (calls s)) (now s) (l_pc x) cid y) as [sh|] eqn:Hsh; [|discriminate].
+    cbn [option_map] in Hd. inversion Hd; subst a; clear Hd.
+    destruct sh as [p' new out cancel|r0 p' new cancel|d]; cbn [adv_of] in Hin.
+    + exfalso. cbn in Hin. pose proof (lc_shape_keep_out _ _ _ _ _ _ _ _ _ _ _ Hsh) as Hk.
+      assert (In (OResp u r) (resps out)) by (unfold resps; apply filter_In; split; [exact Hin|reflexivity]). rewrite Hk in H. destruct H.
+    + apply do_resolve_resp in Hin. subst r0. exact (lc_shape_resolve_kind _ _ _ _ _ _ _ _ _ _ _ Hsh).
+    + left. exact (enter_select_resp _ _ _ _ _ _ _ _ _ _ _ HF Hin).
+  - destruct (nth_error (parts (nd s)) pid) as [[]|], st; destruct Hin.
+  - destruct (nth_error (calls s) cid) as [[q st]|]; [|destruct Hin]. destruct q; try (destruct Hin; fail). destruct st; destruct Hin.
+  - destruct (nth_error (calls s) cid) as [[q st]|]; [|destruct Hin]. destruct q; try (destruct Hin; fail). destruct st; destruct Hin.
+  - destruct (fire_timers (lcs (pl s)) (entry_ (pl s)) (now s + dt)) as [[l' e'] o'] eqn:Hf. cbn in Hin.
+    left. rewrite (fire_timers_resp _ _ _ _ _ _ _ _ Hf Hin). unfold r_tramp_fail. eauto.
+Qed.
+
+Inductive Settled (c : cfg) (u : N) : sys -> Prop :=
+| se_now s ev p : ev_wf true s ev -> ev <> EvCrash -> In (OResp u (Resolve p)) (snd (step c s ev)) -> Settled c u s
+| se_later s ev : ev_wf true s ev -> ev <> EvCrash -> Settled c u (fst (step c s ev)) -> Settled c u s.
+
+Theorem completed_is_settled c s en h p0 :
+  wreach true c s -> has_done p0 (parts (nd s)) -> entry_ (pl s) = Some en -> In h (listeners en) -> Settled c (hid h) s.
+Proof.
+  intros Hw. pose proof (can_always_resolve c s Hw) as Hcr. revert Hw en.
+  induction Hcr as [s Hn|s ev Hwf Hnc _ IH]; intros Hw en Hd He Hh; [congruence|].
+  destruct (step_keeps_or_answers c s ev en h Hnc He Hh) as [(en' & He' & Hh')|(r & Hr)].
+  - apply (se_later c (hid h) s ev Hwf Hnc). exact (IH (wr_step true c s ev Hw Hwf) en' (has_done_step c s ev p0 Hd) He' Hh').
+  - destruct (resp_kind c s ev (hid h) r (wreach_F c s Hw) Hr) as [(m & ->)|(p & ->)].
+    + exfalso. destruct (fail_only_when_quiet true c s ev (hid h) m eq_refl Hw Hr) as (Haf & _). exact (has_done_not_all_failed p0 _ Hd Haf).
+    + exact (se_now c (hid h) s ev p Hwf Hnc Hr).
 Qed.
